@@ -196,6 +196,20 @@ func init() {
 				continue
 			}
 			seen[renderBtcDeposits(dd)] = true
+			if run == 0 {
+				n := 0
+				for _, ms := range dd {
+					n += len(ms)
+				}
+				ch := make(chan []*message.Message, 64)
+				eh2 := btcListener.NewFungibleTransferEventHandler(zerolog.Context{}, 1, btcListener.NewBtcDepositHandler(),
+					ch, c19BtcConn{mkBtcTxs(a[3])}, mkBtcResources(a[1]), c19Addr(int(u64(a[2]))))
+				if eh2.HandleEvents(bigArg(a[0])) != nil {
+					seen["err"] = true
+				} else {
+					seen[renderBtcDeposits(c19Drain(ch, n))] = true
+				}
+			}
 		}
 		out := []string{}
 		for k := range seen {
@@ -240,6 +254,20 @@ func init() {
 				continue
 			}
 			seen[renderEvmDeposits(dd)] = true
+			if run == 0 { // what HandleEvents puts on the message channel (one send per destination, from goroutines)
+				n := 0
+				for _, ms := range dd {
+					n += len(ms)
+				}
+				ch := make(chan []*message.Message, 64)
+				eh2 := eventHandlers.NewDepositEventHandler(c19EvmListener{deposits: func(s, e *big.Int) []*events.Deposit { return ds }},
+					c19DepositHandler{}, common.Address{}, uint8(u64(a[0])), ch)
+				if eh2.HandleEvents(bigArg(a[1]), bigArg(a[2])) != nil {
+					seen["err"] = true
+				} else {
+					seen[renderEvmDeposits(c19Drain(ch, n))] = true
+				}
+			}
 		}
 		out := []string{}
 		for k := range seen {
